@@ -19,6 +19,8 @@ def main():
     ap.add_argument("--replay", default=None)
     a = ap.parse_args()
     seed = int(os.environ.get("VERIF_SEED", "0") or 0)
+    # every n-th decided z3 obligation is dumped as SMT-LIB2 and re-decided by cvc5 1.0 and z3 4.8 (disagreement = harness error)
+    os.environ.setdefault("FPVERIF_XCHECK_EVERY", "25" if a.tier.startswith("t") else "100")
     mod = importlib.import_module(f"fpverif.props.{a.pid.lower()}")
     if a.replay:
         with open(a.replay) as f:
